@@ -37,6 +37,8 @@ RowOk(r) ==
       [] r.t = "err"  -> ErrItemOk(r.code, r.msg, r.ext, r.text)
       [] r.t = "enum" -> EnumRespOk(r.mn, r.others, r.text) /\ r.rep /\ r.own
       [] r.t = "from" -> FromOk(r)
+      [] r.t = "unitfail" -> r.finerr                 \* a unit containing a value that has no valid response form must fail
+      [] r.t = "unitok" -> ~r.finerr /\ r.text = <<49, 44, 34, 111, 107, 34, 44, 45, 50>>          \* 1,"ok",-2
       [] OTHER -> FALSE
 
 Judge == IF RowOk(Rows[i]) THEN TRUE ELSE PrintT(<<"BAD", i>>)
